@@ -643,7 +643,10 @@ func cmdCheck(args []string) int {
 		final := filepath.Join(*verif, "replays", name)
 		code := runSelf(self, "replay", "-q", "-sig", s, raw)
 		if code != 1 {
-			fmt.Printf("NOT-CONFIRMED property=%s sig=%s (fresh-process replay exit %d) — treated as harness fault\n", *prop, s, code)
+			fmt.Printf("NOT-CONFIRMED property=%s sig=%s index=%d seed=%d (fresh-process replay exit %d) — treated as harness fault\n", *prop, s, tr.Index, tr.Seed, code)
+			if d := os.Getenv("VERIF_KEEP_NONREPRO"); d != "" {
+				os.WriteFile(filepath.Join(d, fmt.Sprintf("nonrepro-%s-%d.json", *prop, tr.Seed)), rb, 0o644)
+			}
 			harnessFault = "a failure did not reproduce on replay: " + s
 			violations--
 			continue
